@@ -509,8 +509,15 @@ func (sc *sched) loop() {
 					opts = append(opts, l)
 				}
 			}
-		} else {
-			opts = later
+		} else if len(later) > 0 {
+			// only sleepers can run: the fair one (least recently run) is the default; another sleeper may overtake it
+			// only while its branching budget lasts, otherwise two polling loops unroll each other without end
+			opts = append(opts, later[0])
+			for _, l := range later[1:] {
+				if sc.budget(l.t.pending.label) > 0 {
+					opts = append(opts, l)
+				}
+			}
 		}
 		if len(opts) == 0 {
 			opts = last
@@ -1052,6 +1059,10 @@ func Now() time.Time {
 	}
 	return epoch.Add(s.clock)
 }
+
+// Since / Until: against the virtual clock (which only advances when a sleeper or timer is resumed).
+func Since(t time.Time) time.Duration { return Now().Sub(t) }
+func Until(t time.Time) time.Duration { return t.Sub(Now()) }
 
 // Sleep: a yield; the clock advances by d when the thread is resumed.
 func Sleep(d time.Duration) { SleepL(d, caller()) }
